@@ -664,11 +664,51 @@ type recvCase struct {
 	Peer     string `json:"peer"`     // none | silent | leaving
 	Dms      int    `json:"d_ms"`
 	NQ       int    `json:"queued"`
-	QFull    bool   `json:"rq_full"`       // READQ-LEN = number of queued messages (receive queue full)
-	Zero     bool   `json:"explicit_zero"` // set a positive deadline first, then 0
-	Unblock  string `json:"unblock"`       // inject | close
+	QFull    bool   `json:"rq_full"`             // READQ-LEN = number of queued messages (receive queue full)
+	Zero     bool   `json:"explicit_zero"`       // set a positive deadline first, then 0
+	Unblock  string `json:"unblock"`             // inject | close
 	ShortSD  bool   `json:"short_send_deadline"` // REQ: the request is sent under a 30 ms send deadline
+	Churn    string `json:"churn"`               // timeout scenario: options re-set on the object while the call is blocked (none | readq | topics | other)
 	Rseed    string `json:"rseed"`
+}
+
+// churn re-sets options on the object under test (and its socket) every `every` until stop is
+// closed: a call blocked under a deadline must still return by that deadline, not by one counted
+// from the latest option change.  Errors (option not supported by the pattern) are ignored.
+func (c *cse) churn(stop <-chan struct{}, every time.Duration, what string, sendSide bool) {
+	if every < time.Millisecond {
+		every = time.Millisecond
+	}
+	tk := time.NewTicker(every)
+	defer tk.Stop()
+	for i := 0; ; i++ {
+		select {
+		case <-stop:
+			return
+		case <-tk.C:
+		}
+		switch {
+		case what == "topics" && c.pat.name == "sub":
+			if i%2 == 0 {
+				_ = c.sub.SetOption(mangos.OptionSubscribe, "zz-unrelated")
+			} else {
+				_ = c.sub.SetOption(mangos.OptionUnsubscribe, "zz-unrelated")
+			}
+		case what == "readq" || (what == "topics" && !sendSide):
+			_ = c.sub.SetOption(mangos.OptionReadQLen, 16+i%2)
+			if c.useCtx {
+				_ = c.sock.SetOption(mangos.OptionReadQLen, 16+i%2)
+			}
+		default:
+			if sendSide {
+				_ = c.sub.SetOption(mangos.OptionRecvDeadline, time.Second)
+			} else {
+				_ = c.sub.SetOption(mangos.OptionSendDeadline, time.Second)
+			}
+			_ = c.sub.SetOption(mangos.OptionBestEffort, false)
+			_ = c.sock.SetOption(mangos.OptionMaxRecvSize, 1<<20)
+		}
+	}
 }
 
 func TestC18RecvDeadline(t *testing.T) {
@@ -690,6 +730,7 @@ func TestC18RecvDeadline(t *testing.T) {
 			c.Zero = rapid.Bool().Draw(t, "zero")
 			c.Unblock = rapid.SampledFrom([]string{"inject", "close"}).Draw(t, "unblock")
 			c.ShortSD = rapid.Bool().Draw(t, "shortSendDeadline")
+			c.Churn = rapid.SampledFrom([]string{"none", "none", "readq", "topics", "other"}).Draw(t, "churn")
 			recvRun(t, c)
 		})
 	})
@@ -725,11 +766,14 @@ func recvRun(t stats.TB, rc recvCase) {
 	if rc.Scenario != "nodeadline" {
 		rc.Zero, rc.Unblock = false, ""
 	}
+	if rc.Scenario != "timeout" || rc.Churn == "" {
+		rc.Churn = "none"
+	}
 	d := ms(rc.Dms)
 	if pat.name != "req" || rc.Peer == "none" {
 		rc.ShortSD = false
 	}
-	canon := fmt.Sprintf("recv|%s|%s|%s|%d|%d|%v|%v|%s|%v", rc.Kind, rc.Scenario, rc.Peer, rc.Dms, rc.NQ, rc.QFull, rc.Zero, rc.Unblock, rc.ShortSD)
+	canon := fmt.Sprintf("recv|%s|%s|%s|%d|%d|%v|%v|%s|%v|%s", rc.Kind, rc.Scenario, rc.Peer, rc.Dms, rc.NQ, rc.QFull, rc.Zero, rc.Unblock, rc.ShortSD, rc.Churn)
 	run(t, rc, rc.Kind, canon, "recv:"+rc.Scenario+":"+rc.Peer, func(c *cse) {
 		c.setup(rc.Kind, -1)
 		if rc.ShortSD {
@@ -755,6 +799,18 @@ func recvRun(t stats.TB, rc recvCase) {
 			if rc.Peer == "leaving" {
 				p := c.p
 				mid = func() { _ = p.Close() }
+			}
+			if rc.Churn != "none" {
+				what += ", options re-set while it waits: " + rc.Churn
+				stop := make(chan struct{})
+				defer close(stop)
+				leave := mid
+				mid = func() {
+					if leave != nil {
+						leave()
+					}
+					go c.churn(stop, d/3, rc.Churn, false)
+				}
 			}
 			if r, ok := c.timed("recv", what, d, mangos.ErrRecvTimeout, c.sub.RecvMsg, mid); ok && r.m != nil && r.err == nil {
 				r.m.Free()
@@ -838,6 +894,7 @@ type sendCase struct {
 	WQ       int    `json:"wq"`
 	Pre      int    `json:"pre"`     // messages sent before the timed call (room)
 	Unblock  string `json:"unblock"` // release | connect | close
+	Churn    string `json:"churn"`   // full scenario: options other than the send queue's re-set while the call is blocked
 	Rseed    string `json:"rseed"`
 }
 
@@ -863,6 +920,9 @@ func TestC18SendDeadline(t *testing.T) {
 			c.WQ = rapid.IntRange(0, 2).Draw(t, "wq")
 			c.Pre = rapid.IntRange(0, 2).Draw(t, "pre")
 			c.Unblock = rapid.SampledFrom([]string{"release", "close"}).Draw(t, "unblock")
+			// (queue lengths are not touched on the send side: pair/pair1 share one resize signal between both
+			// queues and a Send woken by it drops its message and reports success - observed, not claimed, DESIGN 5.3)
+			c.Churn = rapid.SampledFrom([]string{"none", "none", "other"}).Draw(t, "churn")
 			sendRun(t, c)
 		})
 	})
@@ -943,7 +1003,10 @@ func sendRun(t stats.TB, sc sendCase) {
 		sc.Pre, sc.Unblock, sc.Dms = 0, "", 0
 	}
 	d := ms(sc.Dms)
-	canon := fmt.Sprintf("send|%s|%s|%s|%d|%d|%d|%s", sc.Kind, sc.Scenario, sc.Peer, sc.Dms, sc.WQ, sc.Pre, sc.Unblock)
+	if sc.Scenario != "full" || sc.Churn != "other" {
+		sc.Churn = "none"
+	}
+	canon := fmt.Sprintf("send|%s|%s|%s|%d|%d|%d|%s|%s", sc.Kind, sc.Scenario, sc.Peer, sc.Dms, sc.WQ, sc.Pre, sc.Unblock, sc.Churn)
 	run(t, sc, sc.Kind, canon, "send:"+sc.Scenario+":"+sc.Peer, func(c *cse) {
 		c.setup(sc.Kind, sc.WQ)
 		switch sc.Peer {
@@ -964,6 +1027,18 @@ func sendRun(t stats.TB, sc sendCase) {
 			if sc.Peer == "leaving" {
 				p := c.p
 				mid = func() { _ = p.Close() }
+			}
+			if sc.Churn != "none" {
+				what += ", other options re-set while it waits: " + sc.Churn
+				stop := make(chan struct{})
+				defer close(stop)
+				leave := mid
+				mid = func() {
+					if leave != nil {
+						leave()
+					}
+					go c.churn(stop, d/3, sc.Churn, true)
+				}
 			}
 			r, ok := c.timed("send", what, d, mangos.ErrSendTimeout, func() (*mangos.Message, error) { return nil, c.sub.SendMsg(m) }, mid)
 			if ok && r.err == mangos.ErrSendTimeout {
@@ -1241,7 +1316,7 @@ func TestC18FailNoPeers(t *testing.T) {
 		rapid.Check(t, func(t *rapid.T) {
 			c := npCase{Test: "TestC18FailNoPeers", Rseed: os.Getenv("VERIF_RSEED")}
 			c.Kind = rapid.SampledFrom(names).Draw(t, "kind")
-			c.State = rapid.SampledFrom([]string{"none", "left", "leave-send", "leave-send", "leave-recv", "off-leave-send", "connected", "connected-full", "one-of-two-leaves"}).Draw(t, "state")
+			c.State = rapid.SampledFrom([]string{"none", "left", "leave-send", "leave-send", "leave-recv", "off-leave-send", "connected", "connected-full", "one-of-two-leaves", "second-arrives-all-leave", "left-then-off"}).Draw(t, "state")
 			c.Dms = rapid.SampledFrom([]int{0, 5, 20, 50}).Draw(t, "d")
 			c.WQ = rapid.IntRange(1, 2).Draw(t, "wq")
 			npRun(t, c)
@@ -1256,11 +1331,15 @@ func npRun(t stats.TB, nc npCase) {
 	if nc.State == "leave-recv" && !isReq {
 		nc.State = "leave-send"
 	}
-	if nc.State == "one-of-two-leaves" && isReq {
+	if (nc.State == "one-of-two-leaves" || nc.State == "second-arrives-all-leave") && isReq {
 		nc.State = "leave-send" // a REQ context has one request at a time: no queue to fill behind two peers
 	}
 	switch nc.State {
-	case "leave-send", "leave-recv", "off-leave-send", "one-of-two-leaves":
+	case "left-then-off":
+		if nc.Dms == 0 {
+			nc.Dms = 50
+		}
+	case "leave-send", "leave-recv", "off-leave-send", "one-of-two-leaves", "second-arrives-all-leave":
 		nc.Dms = 0
 	case "connected":
 		if nc.Dms != 0 && nc.Dms < 50 {
@@ -1415,6 +1494,51 @@ func npRun(t stats.TB, nc npCase) {
 				c.join(ch)
 			case r.err != mangos.ErrNoPeers && r.err != nil:
 				c.add("nopeers-wrong-error", false, "%s returned %s when the last peer left, want ErrNoPeers", what, errName(r.err))
+			}
+
+		case "left-then-off":
+			// the last peer left while the option was on; the option is then turned off: Send waits again
+			c.connect(false)
+			c.mustSend(c.sub, "while-connected")
+			c.dropPeer()
+			c.setOpt(c.sub, mangos.OptionFailNoPeers, false)
+			c.fill(c.sub, nc.WQ) // what the queue still takes is accepted; the next Send can only wait
+			c.setOpt(c.sub, mangos.OptionSendDeadline, d)
+			m := c.newMsg(c.body("after-off"))
+			what := fmt.Sprintf("%s Send (FAIL-NO-PEERS turned off after the last peer left, no peer, send deadline %v)", nc.Kind, d)
+			if r, ok := c.timed("send", what, d, mangos.ErrSendTimeout, func() (*mangos.Message, error) { return nil, c.sub.SendMsg(m) }, nil); ok && r.err != nil {
+				m.Free()
+			}
+
+		case "second-arrives-all-leave":
+			// one stuck peer, queue full, several Sends waiting; a second (stuck) peer arrives during
+			// the wait; then both leave: every Send still waiting must fail with ErrNoPeers at once
+			p1 := c.connect(true)
+			n := c.fill(c.sub, nc.WQ)
+			c.setOpt(c.sub, mangos.OptionSendDeadline, time.Duration(0))
+			what := fmt.Sprintf("%s Send without deadline (FAIL-NO-PEERS set, WRITEQ-LEN %d, queue full after %d messages, a second peer arrived during the wait)", nc.Kind, nc.WQ, n)
+			var chs []<-chan res
+			for i := 0; i < 4; i++ {
+				m := c.newMsg(c.body("waiting"))
+				chs = append(chs, async(func() (*mangos.Message, error) { return nil, c.sub.SendMsg(m) }))
+			}
+			time.Sleep(waitProbe)
+			p2 := c.connect(true)
+			time.Sleep(20 * time.Millisecond)
+			c.blocked = true
+			_ = p1.Close()
+			_ = p2.Close()
+			for _, ch := range chs {
+				r, ok := waitRes(ch, atOnce)
+				switch {
+				case !ok:
+					c.add("nopeers-missed-leave", false, "%s was still blocked %v after the last peer left", what, atOnce)
+					c.join(ch)
+					return
+				case r.err != mangos.ErrNoPeers && r.err != nil:
+					c.add("nopeers-wrong-error", false, "%s returned %s when the last peer left, want ErrNoPeers", what, errName(r.err))
+					return
+				}
 			}
 
 		case "leave-recv":
